@@ -171,7 +171,16 @@ func genCase(r *rand.Rand, w *bufio.Writer, id string) {
 	fmt.Fprintf(w, "case %s\ncfg %d %d %d %s\n", id, totals[r.Intn(len(totals))], peers[r.Intn(len(peers))],
 		retries[r.Intn(len(retries))], subs[r.Intn(len(subs))])
 	n := 3 + r.Intn(22)
+	shut := false
 	hint := func() string {
+		// once Shutdown has been called every `n` is a coin the real scheduler must also throw:
+		// keep them rare so that the scripted schedule is reproduced within a few re-runs
+		if shut {
+			if r.Intn(6) == 0 {
+				return "n"
+			}
+			return "d"
+		}
 		if r.Intn(2) == 0 {
 			return "n"
 		}
@@ -202,6 +211,7 @@ func genCase(r *rand.Rand, w *bufio.Writer, id string) {
 			fmt.Fprintf(w, "wake\n")
 		case k < 90:
 			fmt.Fprintf(w, "shutdown\n")
+			shut = true
 		case k < 96:
 			fmt.Fprintf(w, "xalloc %d\n", []int{100000, 300000, 600000}[r.Intn(3)])
 		default:
@@ -394,6 +404,7 @@ type txRec struct {
 	returned atomic.Bool
 	sizeSeen bool
 	sentCids []int
+	buildSeq int  // order in which build functions ran (= queued order)
 	shares   bool // links to a block another request's transaction put on the wire (dedup)
 	replaced bool // a later transaction set another subscriber for the same request in the same message
 }
@@ -440,6 +451,7 @@ type env struct {
 	granted     uint64
 
 	sentOrder []int // builder indexes in first-SendMsg order
+	nBuilt    int
 	lastSent  int
 	exact     bool
 }
@@ -547,6 +559,8 @@ func (e *env) built(tx *txRec, b *messagequeue.Builder, fn func(*messagequeue.Bu
 	}
 	tx.fnRan = true
 	tx.bidx = idx
+	e.nBuilt++
+	tx.buildSeq = e.nBuilt
 	if e.exited.Load() || (e.at != nil && e.at.kind == "relpeer") {
 		tx.dead = true
 	}
@@ -629,7 +643,7 @@ type stuck struct{ what string }
 
 // settle waits until the system is quiescent; returns an error text if the watchdog fires
 func (e *env) settle() string {
-	deadline := time.Now().Add(10 * time.Second)
+	deadline := time.Now().Add(120 * time.Second)
 	spins := 0
 	for {
 		if e.at == nil {
@@ -645,7 +659,7 @@ func (e *env) settle() string {
 			case info := <-e.arrive:
 				e.at = &info
 				e.expectConnect = false
-			case <-time.After(5 * time.Second):
+			case <-time.After(60 * time.Second):
 				return "watchdog: no ConnectTo after a failed SendMsg"
 			}
 			continue
@@ -692,7 +706,7 @@ func runCaseWithRetries(c reg.Case, out *reg.Out) {
 	for {
 		tries++
 		res = runCase(c)
-		if !res.mismatch || tries >= 200 {
+		if !res.mismatch || tries >= 1000 {
 			break
 		}
 	}
@@ -1349,7 +1363,7 @@ func runCase(c reg.Case) *result {
 						res.fail("watchdog", "%s", w)
 						break
 					}
-					if !e.checkHint("n", eb) {
+					if !e.checkHint("d", eb) {
 						res.mismatch = true
 						return res
 					}
@@ -1437,10 +1451,16 @@ func (e *env) noteSend(res *result) {
 	for _, r := range m.Responses() {
 		id := reqNum(r.RequestID())
 		var want []string
+		var parts []*txRec
 		for _, t := range e.txs {
 			if t.attached && !t.isReq && t.req == id && t.bidx == idx && t.state == 1 {
-				want = append(want, t.links...)
+				parts = append(parts, t)
 			}
+		}
+		// queued order = the order in which the transactions were built into the message
+		sort.Slice(parts, func(i, j int) bool { return parts[i].buildSeq < parts[j].buildSeq })
+		for _, t := range parts {
+			want = append(want, t.links...)
 		}
 		var got []string
 		r.Metadata().Iterate(func(c cid.Cid, a graphsync.LinkAction) {
